@@ -7,6 +7,7 @@ import (
 	"os/exec"
 	"path/filepath"
 	"reflect"
+	"sort"
 	"strings"
 	"testing"
 
@@ -39,6 +40,35 @@ func (Attribution) AfterScan(ctx *h.ScanCtx) []h.Violation {
 				Msg: fmt.Sprintf("scan %d: while processing group %q, %s(%s) targets group %q", ctx.Scan, e.Group, e.Op, e.Target, byTarget)})
 		} else {
 			ctx.H.Cov["c12.attributed-writes"]++
+		}
+	}
+	// a fleet request made while g is processed is built from g's own ASG subnets and instance types
+	for _, e := range ctx.Entries {
+		if e.Op != sim.OpCreateFleet || e.Phase != "group" {
+			continue
+		}
+		g := ctx.Group(e.Group)
+		if g == nil {
+			continue
+		}
+		a := ctx.H.W.FindASG(g.ASGName)
+		if a == nil {
+			continue
+		}
+		var want []string
+		for _, sn := range strings.Split(a.Subnets, ",") {
+			if len(g.Spec.Opts.AWS.InstanceTypeOverrides) == 0 {
+				want = append(want, sn+"/")
+			}
+			for _, it := range g.Spec.Opts.AWS.InstanceTypeOverrides {
+				want = append(want, sn+"/"+it)
+			}
+		}
+		sort.Strings(want)
+		ctx.H.Cov["c12.fleet-requests-checked"]++
+		if got := e.Extra["override-list"]; got != strings.Join(want, ",") {
+			out = append(out, h.Violation{Prop: "C12", Sig: "C12/fleet-request-built-from-another-group",
+				Msg: fmt.Sprintf("scan %d: the fleet request made for group %s carries subnets / instance types [%s]; its own ASG and options give [%s]", ctx.Scan, g.Name, got, strings.Join(want, ","))})
 		}
 	}
 	// a not-in-group stop must name the cloud group of the node's own node group
@@ -317,6 +347,9 @@ func C12Scenarios(tier string) []*h.Scenario {
 		for _, g := range []*h.GroupSpec{&ga, &gb} {
 			g.Opts.AWS.LaunchTemplateID, g.Opts.AWS.LaunchTemplateVersion = "lt-1", "1"
 		}
+		// the same launch template, but each group has its own subnets and instance types
+		ga.ASG.Subnets, gb.ASG.Subnets = "subnet-a", "subnet-b,subnet-c"
+		ga.Opts.AWS.InstanceTypeOverrides, gb.Opts.AWS.InstanceTypeOverrides = []string{"m5.large"}, []string{"c5.large", "c5.xlarge"}
 		s := &h.Scenario{Name: "c12.fleet-two", Groups: []h.GroupSpec{ga, gb}, Slots: 5, Quantum: Q, MaxEventsPerSlot: 2, Shared: map[string]any{}}
 		s.Init = func(hh *h.Hist) {
 			hh.W.ReadyFromPoll = -1
